@@ -77,6 +77,9 @@ def strat_history(draw, tier):
                                               0]))
         if kind in ("read", "write") and draw(st.integers(0, 9)) == 0:
             s["fail"] = True           # the machine does not answer
+        if kind == "with":
+            # the block is left normally or by an exception of the program's
+            s["leave"] = draw(st.sampled_from(["normal", "exception"]))
         steps.append(s)
     return {"size": size, "buffer": draw(st.sampled_from([16, 64, 256])),
             "forget_root": draw(st.one_of(st.none(), st.none(),
@@ -84,6 +87,10 @@ def strat_history(draw, tier):
             "chip": draw(st.sampled_from([[0, 0], [1, 1]])),
             "tag": draw(st.sampled_from([0, 0, 3])),
             "clear": draw(st.booleans()), "steps": steps}
+
+
+class _Leave(Exception):
+    """Raised by the program inside a with block."""
 
 
 class View(object):
@@ -199,9 +206,14 @@ def check_history(case):
                         elif kind == "close":
                             v.obj.close()
                         elif kind == "with":
-                            with v.obj as inner:
-                                require(inner is v.obj, "__enter__ does not "
-                                        "return the view", det)
+                            try:
+                                with v.obj as inner:
+                                    require(inner is v.obj, "__enter__ does "
+                                            "not return the view", det)
+                                    if step.get("leave") == "exception":
+                                        raise _Leave()
+                            except _Leave:
+                                pass
                         elif kind == "free":
                             v.root.obj.free()
                 except (OSError, ValueError) as e:
